@@ -53,6 +53,16 @@ def run(ctx):
             cmds.append("CFGKEY2NAME %x" % k)
     for k in (0, 1, 5, 0xffffffff, 0x12345, -5, 1 << 40):
         cmds.append("CFGKEY2NAME " + impl.zstr(k))
+    # undocumented ids that differ from a documented one in a single bit (reserved bits, group, item): an id is
+    # known only if ALL its 32 bits are a database id
+    dbids = {kid for _, (kid, _) in db}
+    near = []
+    for name, (kid, ty) in rng.sample(db, 40 if ctx.quick() else 400):
+        for bit in rng.sample(range(32), 8 if ctx.quick() else 32):
+            k2 = kid ^ (1 << bit)
+            if k2 not in dbids:
+                near.append(k2)
+                cmds.append("CFGKEY2NAME %x" % k2)
     cmds.append("CFGNAME2KEY CFG_NO_SUCH_KEY")
     cases = []
     for it in range(120 if ctx.quick() else 1500):
@@ -113,6 +123,11 @@ def run(ctx):
             else:
                 code = rng.choice([1, 2, 3, 4, 5])
                 kid = (code << 28) | rng.getrandbits(28)
+                if near and rng.random() < 0.5:
+                    kid = rng.choice(near)
+                    code = (kid >> 28) & 7
+                    if code not in SIZ or int(hex(kid)[2:3], 16) != code:
+                        continue
                 if kid in {k for _, (k, _) in db}:
                     continue
                 v = bytes(rng.getrandbits(8) for _ in range(SIZ[code]))
@@ -139,6 +154,15 @@ def run(ctx):
             ctx.fail("lookup-not-inverse", {"op": "CFGDB", "name": name, "id": hex(kid)}, (name, ty), back)
             ctx.failures[-1]["keyid"] = kid
         ids.setdefault(kid, []).append(name)
+    for k2 in near:
+        code = (k2 >> 28) & 7
+        try:
+            got = cfgkey2name(k2)
+        except Exception as e:  # pylint: disable=broad-except  (ids with bit 31 set: outside the property, see DESIGN 0.3)
+            got = type(e).__name__
+        want = ("CFG_%s" % hex(k2), "X%03d" % SIZ[code]) if code in SIZ and int(hex(k2)[2:3], 16) == code else None
+        if want is not None and got != want:
+            ctx.fail("undocumented-id-resolved-to-a-documented-key", {"op": "CFGKEY2NAME", "id": hex(k2)}, want, got)
     for lay, tr, pos, items in cases:
         ok_items = all(good_item(k, v) for k, v in items)
         inp = {"op": "CFGSET", "layers": lay, "transaction": tr, "n": len(items), "items": repr(items)[:300]}
